@@ -1349,12 +1349,14 @@ func (p *Posix) CreateMultipartUpload(ctx context.Context, mpu s3response.Create
 	// they will all go into the same hashed name directory
 	objdir := filepath.Join(metaTmpMultipartDir, fmt.Sprintf("%x", objNameSum))
 	tmppath := filepath.Join(bucket, objdir)
+	verifhook.At("mpucreate.entry", bucket, object)
 	// the unique upload id is a directory for all of the parts
 	// associated with this specific multipart upload
 	err = os.MkdirAll(filepath.Join(tmppath, uploadID), 0755)
 	if err != nil {
 		return s3response.InitiateMultipartUploadResult{}, fmt.Errorf("create upload temp dir: %w", err)
 	}
+	verifhook.At("mpucreate.dir-made", bucket, object)
 
 	// set an attribute with the original object name so that we can
 	// map the hashed name back to the original object name
